@@ -28,6 +28,7 @@ CONSTANTS
   MaxFaults,     \* budget of wire faults
   Kinds,         \* subscription kinds offered: subset of {"pos", "rec", "plain", "nohist"}
   RecLimit,      \* RecoveryMaxPublicationLimit (0 = none)
+  Servers,       \* subset of BOOLEAN: FALSE = client-side subscribe command, TRUE = server-side Client.Subscribe
   UrgentAsync    \* TRUE: a spawned insufficient-state goroutine runs before anything else (replay configs: the
                  \* goroutine cannot be parked without a hook); FALSE: it may be delayed arbitrarily (design check)
 
@@ -62,18 +63,30 @@ Filt == {[filt |-> FALSE, sf |-> FALSE], [filt |-> TRUE, sf |-> FALSE], [filt |-
 NoSince == [off |-> 0, ep |-> ""]
 \* noep: the broker reported an empty epoch at subscribe time (e.g. a lagging replica without the stream's meta):
 \* the subscription starts with epoch "" and adopts the epoch of the first publication it sees
-Cfgs ==
-  {[kind |-> k, filt |-> f.filt, sf |-> f.sf, auto |-> FALSE, noep |-> FALSE, since |-> NoSince] : k \in Kinds \ {"rec", "cache"}, f \in Filt}
-  \cup (IF "pos" \in Kinds THEN {[kind |-> "pos", filt |-> f.filt, sf |-> f.sf, auto |-> FALSE, noep |-> TRUE, since |-> NoSince] : f \in Filt} ELSE {})
+\* server: the subscription is made by the application (Client.Subscribe, options WithPositioning / WithRecovery /
+\* WithRecoverSince / a server tags filter) instead of a client command: the connection gets a subscribe push that has
+\* no room for recovered publications, so it announces the position the subscription continues from; an
+\* insufficient state later disconnects (3010) instead of unsubscribing; a failed subscribe is returned to the caller
+SFilt == {f \in Filt : f.filt => f.sf}
+ClientCfgs ==
+  {[kind |-> k, filt |-> f.filt, sf |-> f.sf, auto |-> FALSE, noep |-> FALSE, server |-> FALSE, since |-> NoSince] : k \in Kinds \ {"rec", "cache"}, f \in Filt}
+  \cup (IF "pos" \in Kinds THEN {[kind |-> "pos", filt |-> f.filt, sf |-> f.sf, auto |-> FALSE, noep |-> TRUE, server |-> FALSE, since |-> NoSince] : f \in Filt} ELSE {})
   \cup (IF "rec" \in Kinds
-          THEN {[kind |-> "rec", filt |-> f.filt, sf |-> f.sf, auto |-> FALSE, noep |-> FALSE, since |-> [off |-> o, ep |-> e]] :
+          THEN {[kind |-> "rec", filt |-> f.filt, sf |-> f.sf, auto |-> FALSE, noep |-> FALSE, server |-> FALSE, since |-> [off |-> o, ep |-> e]] :
                   f \in Filt, o \in 0..MaxPub, e \in {"", Ep, "e2"}}
           ELSE {})
   \cup (IF "cache" \in Kinds
-          THEN {[kind |-> "cache", filt |-> f.filt, sf |-> f.sf, auto |-> FALSE, noep |-> FALSE, since |-> [off |-> o, ep |-> e]] :
+          THEN {[kind |-> "cache", filt |-> f.filt, sf |-> f.sf, auto |-> FALSE, noep |-> FALSE, server |-> FALSE, since |-> [off |-> o, ep |-> e]] :
                   f \in Filt, o \in 0..MaxPub, e \in {"", Ep, "e2"}}
-               \cup {[kind |-> "cache", filt |-> f.filt, sf |-> f.sf, auto |-> TRUE, noep |-> FALSE, since |-> NoSince] : f \in Filt}
+               \cup {[kind |-> "cache", filt |-> f.filt, sf |-> f.sf, auto |-> TRUE, noep |-> FALSE, server |-> FALSE, since |-> NoSince] : f \in Filt}
           ELSE {})
+ServerCfgs ==
+  {[kind |-> k, filt |-> f.filt, sf |-> f.sf, auto |-> FALSE, noep |-> FALSE, server |-> TRUE, since |-> NoSince] : k \in Kinds \cap {"pos", "plain", "nohist"}, f \in SFilt}
+  \cup (IF "rec" \in Kinds
+          THEN {[kind |-> "rec", filt |-> f.filt, sf |-> f.sf, auto |-> FALSE, noep |-> FALSE, server |-> TRUE, since |-> [off |-> o, ep |-> e]] :
+                  f \in SFilt, o \in 0..MaxPub, e \in {"", Ep, "e2"}}
+          ELSE {})
+Cfgs == (IF FALSE \in Servers THEN ClientCfgs ELSE {}) \cup (IF TRUE \in Servers THEN ServerCfgs ELSE {})
 
 Init ==
   /\ top = 0 /\ win = <<>> /\ tags = <<>> /\ wire = {} /\ npub = 0 /\ faults = 0
@@ -155,13 +168,15 @@ Drop(d) ==
   /\ UNCHANGED <<top, win, tags, npub, cfg, pc, hub, hres, buf, sub, pend, out>>
   /\ step' = [act |-> "Drop", id |-> d.id]
 
-\* handleInsufficientState goroutine (client-side subscription => unsubscribe + push)
+\* handleInsufficientState goroutine (client-side subscription => unsubscribe + push; server-side => disconnect)
 AsyncEnd ==
   /\ pend > 0
   /\ pend' = pend - 1
   /\ IF sub.st = "live" THEN sub' = [sub EXCEPT !.st = "ended"] /\ hub' = FALSE
                         ELSE UNCHANGED <<sub, hub>>
-  /\ out' = Append(out, [t |-> "unsub", code |-> InsufficientCode])     \* written even when already gone (as coded)
+  /\ IF cfg.server
+       THEN out' = IF sub.st = "live" THEN Append(out, [t |-> "disc", code |-> DiscInsufficient]) ELSE out   \* close is idempotent
+       ELSE out' = Append(out, [t |-> "unsub", code |-> InsufficientCode])     \* written even when already gone (as coded)
   /\ UNCHANGED <<top, win, tags, wire, npub, faults, cfg, pc, hres, buf>>
   /\ step' = [act |-> "AsyncEnd"]
 
@@ -244,14 +259,16 @@ SubFinish ==
              latest == IF m.max > l1 THEN m.max ELSE l1
          IN IF ~m.ok
               THEN \* gap between recovered and buffered publications: disconnect with insufficient state
-                   /\ out' = Append(out, [t |-> "disc", code |-> DiscInsufficient])
+                   \* (server-side: the error is returned to the caller of Client.Subscribe, the connection sees nothing)
+                   /\ out' = IF cfg.server THEN out ELSE Append(out, [t |-> "disc", code |-> DiscInsufficient])
                    /\ pc' = "failed" /\ hub' = FALSE /\ buf' = <<>>
                    /\ sub' = [st |-> "ended", pos |-> 0, ep |-> ""]
                    /\ UNCHANGED pend
               ELSE /\ out' = Append(out, [t |-> "reply",
-                                         off |-> IF recd THEN cfg.since.off ELSE latest,
-                                         recovered |-> recd,
-                                         pubs |-> IF ~recd THEN <<>>
+                                         \* (server-side: the subscribe push announces `latest`, carries no publications)
+                                         off |-> IF recd /\ ~cfg.server THEN cfg.since.off ELSE latest,
+                                         recovered |-> recd /\ ~cfg.server,
+                                         pubs |-> IF ~recd \/ cfg.server THEN <<>>
                                                   \* cache mode: the client wants the last publication only
                                                   ELSE IF isCache /\ Len(m.pubs) > 1 THEN <<m.pubs[Len(m.pubs)]>>
                                                   ELSE m.pubs])
